@@ -37,7 +37,7 @@ ASSUMPTIONS = [
     "generic for a specialised annotation, non-set Set views, omitted argument where the annotation admits Missing/Any, unknown keyword arguments",
     "annotation forms outside the vocabulary (list[...], dict[...], bare Sequence/tuple, recursive aliases) are not generated",
 ]
-MINIMUMS = {"monitor:accepts-conforming": 15000, "monitor:rejects-violating": 20000, "monitor:stored-faithfully": 15000, "breakers_below_top": 3000, "set:terms": 400, "monitor:default-validated": 500, "monitor:required-argument": 300, "classes_with_two_generic_bases": 200, "values_checked_through_typevar": 1000, "values_checked_through_typevar-subclass": 1000, "values_checked_through_typevar-bound": 1000, "classes_with_implementation_like_attribute_names": 100, "same_named_subclass_probes": 4, "self_reference_probes": 110, "annotations_inside_a_wrapper": 300, "postponed_annotation_probes": 4, "type_arguments_spelled_through_aliases": 6, "defaults_changed_in_place_between_constructions": 100}
+MINIMUMS = {"monitor:accepts-conforming": 15000, "monitor:rejects-violating": 20000, "monitor:stored-faithfully": 15000, "breakers_below_top": 3000, "set:terms": 400, "monitor:default-validated": 500, "monitor:required-argument": 300, "classes_with_two_generic_bases": 200, "values_checked_through_typevar": 1000, "values_checked_through_typevar-subclass": 1000, "values_checked_through_typevar-bound": 1000, "classes_with_implementation_like_attribute_names": 100, "same_named_subclass_probes": 4, "self_reference_probes": 110, "annotations_inside_a_wrapper": 300, "postponed_annotation_probes": 4, "type_arguments_spelled_through_aliases": 6, "defaults_changed_in_place_between_constructions": 100, "generic_child_probes": 17}
 JOBS = {"quick": 4, "thorough": 16}
 LEVEL_TEXT = (
     "All annotation terms up to depth 1 (413 terms, quick) / depth 2 (4.6k terms, thorough) and seeded random terms up to depth 4 - covering None, bool, int, float, str, bytes, UUID, "
@@ -549,7 +549,8 @@ def generic_child_probes(R: Recorder, N: Any) -> None:
     """a generic State that hands its type variable on to a generic base (`class Labeled[T](Box[T])`): its specialisation is - by every
     typing rule - an instance of the base specialised the same way, like a non-generic subclass of that specialisation is"""
     N.define("class Labeled[T](Box[T]):\n    label: str = ''\nclass IntBox(Box[int]):\n    pass\nclass Deep[T](Labeled[T]):\n    deep: bool = False\n"
-             "class SeqChild[T](Box[Sequence[T]]):\n    pass\nclass BoxHolder(State):\n    box: Box[int]\n    boxes: Sequence[Box[int]] = ()\n    seqbox: Box[Sequence[int]] | None = None\n")
+             "class SeqChild[T](Box[Sequence[T]]):\n    pass\nclass BoxHolder(State):\n    box: Box[int]\n    boxes: Sequence[Box[int]] = ()\n    seqbox: Box[Sequence[int]] | None = None\n"
+             "class Half[B](Pair2[int, B]):\n    pass\nclass Swap[X, Y](Pair2[Y, X]):\n    pass\n")
     ns = N.ns
     probes: list[tuple[str, str, bool]] = [
         ("Box[int]", "BoxHolder(box=Box[int](v=1))", True), ("non-generic subclass", "BoxHolder(box=IntBox(v=1))", True), ("generic child", "BoxHolder(box=Labeled[int](v=1, label='one'))", True),
@@ -557,6 +558,11 @@ def generic_child_probes(R: Recorder, N: Any) -> None:
         ("child of a container-specialised base", "BoxHolder(box=Box[int](v=0), seqbox=SeqChild[int](v=[1, 2]))", True),
         ("generic child, other argument", "BoxHolder(box=Labeled[str](v='x'))", False), ("generic grandchild, other argument", "BoxHolder(box=Deep[str](v='x'))", False),
         ("child of a container-specialised base, other argument", "BoxHolder(box=Box[int](v=0), seqbox=SeqChild[str](v=['x']))", False), ("unspecialised child", "BoxHolder(box=Labeled(v='x'))", None),
+        # a child that fixes one parameter of its base and hands its own variable on for the other - specialised, and used as it is
+        ("partially specialising child", "Half[str](first=1, second='a')", True), ("partially specialising child, fixed parameter violated", "Half[str](first='x', second='a')", False),
+        ("partially specialising child, own parameter violated", "Half[str](first=1, second=2)", False), ("partially specialising child used unspecialised", "Half(first=1, second=b'anything')", True),
+        ("partially specialising child used unspecialised, fixed parameter violated", "Half(first='x', second=2)", False),
+        ("child swapping the parameters", "Swap[int, str](first='a', second=1)", True), ("child swapping the parameters, violated", "Swap[int, str](first=1, second='a')", False),
     ]
     for label, expr, conforms in probes:
         case = {"generic_child": label}
